@@ -243,6 +243,19 @@ mod sql {
                             fails.push(format!("sqlite [{hs}] lookup {}: got {} expected(map) {:?}", key_s(k), obs_s(&full), spec));
                         }
                         for fz in [false, true] {
+                            // provided trait methods: first phrase = head, all phrases = full answer
+                            let stg = if fz { LookupStrategy::FuzzyPartialPrefix } else { LookupStrategy::Standard };
+                            let fp: Vec<Obs> = d.lookup_first_phrase(&syls(k), stg).iter().map(obs).collect();
+                            let ap: Vec<Obs> = d.lookup_all_phrases(&syls(k), stg).iter().map(obs).collect();
+                            if fp[..] != full[..1.min(full.len())] || ap != full {
+                                fails.push(format!("sqlite [{hs}] lookup_first_phrase / lookup_all_phrases {} fuzzy={}: got {} / {} but the full answer is {}", key_s(k), fz, obs_s(&fp), obs_s(&ap), obs_s(&full)));
+                            }
+                            if rng.chance(1, 6) {
+                                qs.push(format!("P,{},{}", key_s(k), if fz { "f" } else { "s" }));
+                                ans.push(obs_s(&fp));
+                                qs.push(format!("A,{},{}", key_s(k), if fz { "f" } else { "s" }));
+                                ans.push(obs_s(&ap));
+                            }
                             for n in NS {
                                 let nn = if n == "max" { usize::MAX } else { n.parse().unwrap() };
                                 let part = lookup(&d, k, nn, fz);
